@@ -75,6 +75,18 @@ claim("C17", "proof",
       "Lean kernel + standard axioms; per-definition determinism of lifting, SSA and the passes is exercised by repeated runs, not proved.",
       "Lean 4 proof (permutation invariance of the runner) + repeated/permuted process runs", "5 (C17)")
 
+claim("C15", "proof",
+      "Lean 4 theorems (Props/C15.lean), for every rooted digraph of any size: the fixpoint loop of compute_dominators terminates within "
+      "n*n+1 passes and its result is exactly the path-based dominator relation; the immediate dominator computed from it is the unique "
+      "closest strict dominator (entry: none), for every iteration order of the candidate hash set, and neither assert! can fire; children "
+      "invert it; the frontier walk computes exactly {i | k dominates a predecessor of i and does not strictly dominate i}. Proof ingredients: "
+      "soundness/pre-fixpoint invariants of the chaotic iteration, a decreasing measure, sub-path/splice lemmas, antisymmetry and the chain "
+      "property of dominators. Tie: the public generic DominatorTree::new on all rooted digraphs up to 4 (quick) / 5 (thorough) nodes plus "
+      "random graphs with irreducible loops, against the path definitions evaluated independently and against the Lean model.",
+      "Lean kernel + standard axioms (Classical.choice via by_contra in the chain lemma); std HashSet is modelled as a characteristic function; "
+      "correspondence exhaustive for small graphs, sampled beyond.",
+      "Lean 4 proof (algorithm = path definitions for all rooted digraphs) + exhaustive small-graph correspondence", "5 (C15)")
+
 ALL = ["C%02d" % i for i in range(1, 21)]
 def main():
     checks = []
